@@ -1,45 +1,43 @@
 (* Proofs/SchemaSafe.v -- when is a refusal guaranteed to be a VALIDATION error?
-   Range compares (TypeError on values without an order with numbers), Length measures (TypeError on values
-   without len()).  `guarded` is a syntactic check: every Range is only reached by bool/int/float values, every
-   Length / all_unique only by sized values, the [a, b] -> {start, stop} step only by lists.  For guarded schemas
-   the interpreter never raises anything but Invalid / voluptuous.Error -- for ALL values. *)
+   Range and Length report values they cannot order / measure as Invalid (vendored voluptuous since fix 9e7ee91).
+   What can still escape is a plain callable that iterates or indexes its argument: all_unique (TypeError on a value
+   that cannot be iterated) and the [a, b] -> {start, stop} step of NumberRange.  `guarded` is a syntactic check:
+   all_unique is only reached by sized values, the start/stop step only by lists.  For guarded schemas the
+   interpreter never raises anything but Invalid / voluptuous.Error -- for ALL values; every class schema of the
+   library is guarded (Proofs/SchemaGen.v). *)
 From Coq Require Import ZArith QArith List Bool String Lia.
 From Verif.Model Require Import Result Schema.
 From Verif.Proofs Require Import Schema SchemaIdem.
 Import ListNotations.
 Open Scope list_scope.
 
-Record facts := mkFacts { f_num : bool; f_sized : bool; f_list : bool }.
-Definition no_facts : facts := mkFacts false false false.
-Definition join (a b : facts) : facts := mkFacts (f_num a || f_num b) (f_sized a || f_sized b) (f_list a || f_list b).
+Record facts := mkFacts { f_sized : bool; f_list : bool }.
+Definition no_facts : facts := mkFacts false false.
+Definition join (a b : facts) : facts := mkFacts (f_sized a || f_sized b) (f_list a || f_list b).
 
-Definition top_facts : facts := mkFacts true true true.
-Definition meet (a b : facts) : facts := mkFacts (f_num a && f_num b) (f_sized a && f_sized b) (f_list a && f_list b).
+Definition top_facts : facts := mkFacts true true.
+Definition meet (a b : facts) : facts := mkFacts (f_sized a && f_sized b) (f_list a && f_list b).
 
 Definition type_facts (t : pytype) : facts :=
   match t with
-  | TBool | TInt | TFloat => mkFacts true false false
-  | TStr | TTuple | TDict => mkFacts false true false
-  | TList => mkFacts false true true
-  | TNumber | TObject | TClass _ => no_facts        (* Number includes complex: no order *)
+  | TStr | TTuple | TDict => mkFacts true false
+  | TList => mkFacts true true
+  | _ => no_facts
   end.
 
-Definition is_num (v : pyval) : bool := match num_of v with Some _ => true | None => false end.
 Definition is_sized (v : pyval) : bool := match py_len v with Some _ => true | None => false end.
 Definition is_list (v : pyval) : bool := match v with PList _ => true | _ => false end.
 
 Definition holds (f : facts) (v : pyval) : Prop :=
-  (f_num f = true -> is_num v = true) /\ (f_sized f = true -> is_sized v = true) /\ (f_list f = true -> is_list v = true).
+  (f_sized f = true -> is_sized v = true) /\ (f_list f = true -> is_list v = true).
 
 (* (guarded under the incoming facts, facts about the value handed on) *)
 Fixpoint guard (f : facts) (s : schema) : bool * facts :=
   match s with
   | SType t => (true, join f (type_facts t))
-  | SLit _ | SNotIn _ | SKeysStr | SCallable | SCallableArgs _ => (true, f)
-  | SRange _ _ => (f_num f, f)
-  | SLength _ _ => (f_sized f, f)
+  | SLit _ | SNotIn _ | SKeysStr | SCallable | SCallableArgs _ | SRange _ _ | SLength _ _ => (true, f)
   | SAllUnique => (f_sized f, f)
-  | SStartStop => (f_list f, mkFacts false true false)
+  | SStartStop => (f_list f, mkFacts true false)
   | SAny l =>
       ((fix go (l : list schema) : bool := match l with [] => true | a :: r => fst (guard f a) && go r end) l,
        (fix go (l : list schema) : facts := match l with [] => top_facts | a :: r => meet (snd (guard f a)) (go r) end) l)
@@ -51,18 +49,18 @@ Fixpoint guard (f : facts) (s : schema) : bool * facts :=
          end) l f
   | SList l =>
       ((fix go (l : list schema) : bool := match l with [] => true | a :: r => fst (guard no_facts a) && go r end) l,
-       mkFacts false true true)
+       mkFacts true true)
   | STuple l =>
       ((fix go (l : list schema) : bool := match l with [] => true | a :: r => fst (guard no_facts a) && go r end) l,
-       mkFacts false true false)
+       mkFacts true false)
   | SDict es extra =>
       ((fix go (l : list dentry) : bool :=
           match l with [] => true | (_, _, _, s') :: r => fst (guard no_facts s') && go r end) es
        && match extra with Some e => fst (guard no_facts e) | None => true end,
-       mkFacts false true false)
-  | SWrap KList => (true, mkFacts false true true)
-  | SWrap KTuple => (true, mkFacts false true false)
-  | SWrapAlways | SCoerceTuple => (true, mkFacts false true false)
+       mkFacts true false)
+  | SWrap KList => (true, mkFacts true true)
+  | SWrap KTuple => (true, mkFacts true false)
+  | SWrapAlways | SCoerceTuple => (true, mkFacts true false)
   | SOracle _ => (true, no_facts)
   | SSingleAnswer a => (fst (guard no_facts a), no_facts)
   | SFormulaExpect _ a => (fst (guard no_facts a), no_facts)
@@ -91,7 +89,7 @@ Section Safe.
 
   Lemma holds_join : forall a b v, holds a v -> holds b v -> holds (join a b) v.
   Proof.
-    intros a b v [A1 [A2 A3]] [B1 [B2 B3]]. unfold join. repeat split; simpl; intro H; apply orb_true_iff in H; destruct H; auto.
+    intros a b v [A1 A2] [B1 B2]. unfold join. repeat split; simpl; intro H; apply orb_true_iff in H; destruct H; auto.
   Qed.
 
   Lemma holds_type : forall t v, has_type t v = true -> holds (type_facts t) v.
@@ -101,12 +99,12 @@ Section Safe.
 
   Lemma holds_meet_l : forall a b v, holds a v -> holds (meet a b) v.
   Proof.
-    intros a b v [A1 [A2 A3]]. unfold meet. repeat split; simpl; intro H; apply andb_true_iff in H; destruct H; auto.
+    intros a b v [A1 A2]. unfold meet. repeat split; simpl; intro H; apply andb_true_iff in H; destruct H; auto.
   Qed.
 
   Lemma holds_meet_r : forall a b v, holds b v -> holds (meet a b) v.
   Proof.
-    intros a b v [A1 [A2 A3]]. unfold meet. repeat split; simpl; intro H; apply andb_true_iff in H; destruct H; auto.
+    intros a b v [A1 A2]. unfold meet. repeat split; simpl; intro H; apply andb_true_iff in H; destruct H; auto.
   Qed.
 
   Definition any_ok (f : facts) (l : list schema) : bool := forallb (fun a => fst (guard f a)) l.
@@ -167,11 +165,11 @@ Section Safe.
     - destruct (dict_loop g r); [left; reflexivity | exact IH].
   Qed.
 
-  Lemma sized_list : forall l, holds (mkFacts false true true) (PList l).
+  Lemma sized_list : forall l, holds (mkFacts true true) (PList l).
   Proof. intro l. repeat split; intro H; try discriminate H; reflexivity. Qed.
-  Lemma sized_tuple : forall l, holds (mkFacts false true false) (PTuple l).
+  Lemma sized_tuple : forall l, holds (mkFacts true false) (PTuple l).
   Proof. intro l. repeat split; intro H; try discriminate H; reflexivity. Qed.
-  Lemma sized_dict : forall l, holds (mkFacts false true false) (PDict l).
+  Lemma sized_dict : forall l, holds (mkFacts true false) (PDict l).
   Proof. intro l. repeat split; intro H; try discriminate H; reflexivity. Qed.
 
 
@@ -195,13 +193,11 @@ Section Safe.
       apply holds_join; [exact Hw | apply holds_type; exact E].
     - (* SLit *) cbn [validate guard snd]. destruct (py_eqb w v); [exact Hw | left; reflexivity].
     - (* SRange *)
-      cbn [validate guard snd fst] in *. destruct Hw as [Hn Hrest]. pose proof (Hn Hg) as Hn'. unfold is_num in Hn'.
-      destruct (num_of w) as [n|]; [|discriminate]. destruct (bnd_lo_ok lo n && bnd_hi_ok hi n); [|left; reflexivity].
-      split; [exact Hn | exact Hrest].
+      cbn [validate guard snd fst] in *. destruct (num_of w) as [n|]; [|left; reflexivity].
+      destruct (bnd_lo_ok lo n && bnd_hi_ok hi n); [exact Hw | left; reflexivity].
     - (* SLength *)
-      cbn [validate guard snd fst] in *. destruct Hw as [Hn [Hs Hl]]. pose proof (Hs Hg) as Hs'. unfold is_sized in Hs'.
-      destruct (py_len w) as [n|]; [|discriminate]. destruct (opt_leb lo n && opt_geb hi n); [|left; reflexivity].
-      split; [exact Hn | split; [exact Hs | exact Hl]].
+      cbn [validate guard snd fst] in *. destruct (py_len w) as [n|]; [|left; reflexivity].
+      destruct (opt_leb lo n && opt_geb hi n); [exact Hw | left; reflexivity].
     - (* SNotIn *) cbn [validate guard snd]. destruct (existsb (py_eqb w) l); [left; reflexivity | exact Hw].
     - (* SAny *)
       rewrite guard_any in *. cbn [fst snd] in *. rewrite validate_SAny.
@@ -250,10 +246,10 @@ Section Safe.
     - (* SWrapAlways *) cbn. apply sized_tuple.
     - (* SCoerceTuple *) destruct w; cbn; first [apply sized_tuple | left; reflexivity].
     - (* SStartStop *)
-      cbn [guard fst snd] in *. destruct Hw as [_ [_ Hl]]. specialize (Hl Hg). destruct w; try discriminate Hl.
+      cbn [guard fst snd] in *. destruct Hw as [_ Hl]. specialize (Hl Hg). destruct w; try discriminate Hl.
       cbn. destruct l as [|a [|b [|c r]]]; first [apply sized_dict | left; reflexivity].
     - (* SAllUnique *)
-      cbn [guard fst snd] in *. pose proof Hw as [_ [Hs _]]. specialize (Hs Hg). destruct w; try discriminate Hs; cbn [validate].
+      cbn [guard fst snd] in *. pose proof Hw as [Hs _]. specialize (Hs Hg). destruct w; try discriminate Hs; cbn [validate].
       + destruct (has_dup _); [left; reflexivity | exact Hw].
       + destruct (has_dup _); [left; reflexivity | exact Hw].
       + destruct (has_dup _); [left; reflexivity | exact Hw].
